@@ -210,6 +210,9 @@ def run(ctx):
             continue
         if not exact_ok(trace):
             ctx.stat('programs', 'discarded_inexact'); continue
+        # a program whose dumps grow beyond a few thousand (variable, term) entries is not evaluated (multi-megabyte Coq literals)
+        if sum(len(d) for dump in trace for _, d in dump) > 2500:
+            ctx.stat('programs', 'discarded_too_large'); continue
         kinds = tuple(sorted(set(s[0] + (':' + s[-1] if s[0] in ('bin', 'ibin') else '') for s in prog)))
         nontriv = any(len(d) >= 2 for _, d in trace[-1])
         ctx.count('programs', 1, nontrivial_key=(cname, repr(prog)) if nontriv else None)
